@@ -27,3 +27,24 @@ def rand_date(rng, lo=1, hi=9999):
     return y, m, d
 
 
+
+
+def extra_years_arg(window=45):
+    """`extra=...` argument for the year-sampled day streams (quick tier): the years of this run's term dump in which a term
+    instant falls within `window` seconds of civil midnight or of noon (where day-level look-ups are fragile)."""
+    import os
+    root = os.path.dirname(os.path.abspath(__file__))
+    ys = set()
+    try:
+        for l in open(os.path.join(root, "build", "dump", "terms.tsv")):
+            f = l.split()
+            if len(f) >= 5 and f[3] != "0":
+                sod = int(f[4])
+                if sod < window or sod > 86400 - window or abs(sod - 43200) < window:
+                    ys.add(int(f[0]))
+                    if int(f[1]) >= 22:
+                        ys.add(int(f[0]) + 1)
+    except OSError:
+        return []
+    ys = sorted(y for y in ys if 1 <= y <= 9999)
+    return ["extra=" + ",".join(str(y) for y in ys)] if ys else []
